@@ -353,6 +353,15 @@ class Normaliser:
                 return Poly.atom('%s(%s)' % (fn, str(a)))
             if fn == 'float' and len(e.args) == 1:
                 return self.poly(e.args[0])
+        if isinstance(e, ast.Compare) and len(e.ops) == 1:
+            l, r = self.poly(e.left), self.poly(e.comparators[0])
+            op = type(e.ops[0]).__name__
+            if op in ('Gt', 'GtE'):
+                l, r = r, l
+                op = {'Gt': 'Lt', 'GtE': 'LtE'}[op]
+            if op in ('Eq', 'NotEq') and str(l) > str(r):
+                l, r = r, l
+            return Poly.atom('%s(%s, %s)' % (op, l, r))
         if isinstance(e, ast.IfExp):
             raise Unrecognised('conditional expression')
         return Poly.atom(self.atom_str(e))
